@@ -93,6 +93,75 @@ def consecutive_issues(si: int, pi: int) -> str:
     return verdict(untraced(_history, si, pi))
 
 
+LIFECYCLE = ('none', 'shutdown', 'disconnect-all', 'rejected-connect', 'close-packet', 'shutdown-twice', 'clock-advance')
+
+
+def _server_ids(fl, op, n1, n2, ws):
+    """Ids as a CLIENT sees them (sid of the OPEN packet) over a bounded life of ONE real server object in SimEnv, the random
+    source being constant: n1 opens, one lifecycle operation of the public API, n2 more opens - no id repeats, each is 20
+    URL-safe characters. (The per-call z3 queries say what generate_id does to the counter; this condition is the frame
+    part: nothing else in the server's life moves the counter backwards.)"""
+    import json as _json
+    from vf.props.common import mk
+    sut = mk(fl, async_handlers=False, monitor_clients=True)
+    st = dict(flavour=sut.flavour, op=LIFECYCLE[op])
+    try:
+        issued = []
+
+        def open_n(n):
+            for _ in range(n):
+                r = sut.open('websocket' if ws else 'polling')
+                sut.settle()
+                if ws:
+                    first = r.peer.frames[0] if r.peer.frames else ''
+                else:
+                    first = sut.body(r).decode('utf-8').split('\x1e')[0] if r.done and sut.status(r) == 200 else ''
+                if first[:1] == '0':
+                    issued.append(_json.loads(first[1:])['sid'])
+        open_n(n1)
+        name = LIFECYCLE[op]
+        if name in ('shutdown', 'shutdown-twice'):
+            for _ in range(2 if name == 'shutdown-twice' else 1):
+                sut.api('shutdown')
+                sut.settle()
+                sut.run(until=sut.k.now + 2)
+        elif name == 'disconnect-all':
+            sut.app_disconnect()
+            sut.settle()
+        elif name == 'rejected-connect':
+            sut.connect_result = False
+            sut.open('polling')
+            sut.settle()
+            sut.connect_result = None
+        elif name == 'close-packet':
+            if issued and not ws:
+                sut.post(issued[0], '1')
+                sut.settle()
+        elif name == 'clock-advance':
+            sut.run(until=sut.k.now + 120)
+        open_n(n2)
+        if len(issued) != n1 + n2:
+            return fail(PROP, 'ID-OPEN-FAILS', '%d of %d opens answered with an OPEN packet' % (len(issued), n1 + n2), **st)
+        for i, sid in enumerate(issued):
+            if not isinstance(sid, str) or len(sid) != 20 or not URLSAFE.match(sid):
+                return fail(PROP, 'ID-FORM', 'open #%d: id %r is not 20 characters over [A-Za-z0-9_-]' % (i, sid), **st)
+            if sid in issued[:i]:
+                return fail(PROP, 'ID-DUPLICATE', 'opens #%d and #%d of one server (operation %r after the first %d opens, constant random '
+                            'source) were both issued %r' % (issued.index(sid), i, name, n1, sid), **st)
+        return ''
+    finally:
+        sut.close()
+
+
+@cond(quick=dict(timeout=120), thorough=dict(timeout=300))
+def server_lifecycle_ids(fl: int, op: int, n1: int, n2: int, ws: bool) -> str:
+    """
+    pre: 0 <= fl <= 1 and 0 <= op < len(LIFECYCLE) and 0 <= n1 <= 3 and 1 <= n2 <= 3
+    post: _ == ''
+    """
+    return verdict(untraced(_server_ids, fl, op, n1, n2, ws))
+
+
 def _in_charset(c):
     return z3.Or(z3.And(z3.UGE(c, ord('A')), z3.ULE(c, ord('Z'))), z3.And(z3.UGE(c, ord('a')), z3.ULE(c, ord('z'))),
                  z3.And(z3.UGE(c, ord('0')), z3.ULE(c, ord('9'))), c == ord('_'), c == ord('-'))
@@ -300,3 +369,10 @@ def EXTRA(tier):
         res('d0_random_source', 'violated', clause='id embeds only %d random bits from %r (needs >= 96 from secrets.token_bytes)' % (rbits, srcs),
             witness={'random_calls': srcs, 'bits': rbits})
     return results
+
+
+from vf.props.common import SIM_STUBS  # noqa: E402
+from vf.validate.stubs import ALL as VALIDATE  # noqa: E402,F401  (server_lifecycle_ids runs the real servers inside SimEnv)
+STUBS = STUBS + ['server_lifecycle_ids only: ' + x for x in SIM_STUBS]
+OUTSIDE = OUTSIDE + ['server_lifecycle_ids: more than 3 + 3 opens, lifecycle operations outside the table '
+                     '(shutdown, disconnect(), rejected connect, CLOSE packet, clock advance)']
